@@ -913,7 +913,8 @@ class APIClient:
                 BluetoothGATTNotifyResponse,
                 timeout,
             )
-        except Exception:
+        except BaseException:
+            # includes cancellation of the caller while waiting
             remove_callback()
             raise
 
